@@ -450,6 +450,39 @@ func propC09(r *Run, w *World) {
 	}
 
 	// R5
+	// who may write the file summary at all
+	r.Rule("C09.R5w", "the file summary is written only where it is taken from the selected PATH record: File.Path, Inode, Device, Mode, UID, GID are stored only by setFileObject; Owner and Group only by the ID resolver; SELinux labels only by addFileSELinuxLabel", 6)
+	if ft, err := w.Named("aucoalesce", "File"); err != nil {
+		r.Anchor(err)
+	} else if st, ok := ft.Underlying().(*types.Struct); ok {
+		allowed := map[string][]string{
+			"Path": {"setFileObject"}, "Inode": {"setFileObject"}, "Device": {"setFileObject"}, "Mode": {"setFileObject"},
+			"UID": {"setFileObject"}, "GID": {"setFileObject"},
+			"Owner": {"ResolveIDsFromCaches"}, "Group": {"ResolveIDsFromCaches"},
+			"SELinux": {"addFileSELinuxLabel", "setFileObject"},
+		}
+		for i := 0; i < st.NumFields(); i++ {
+			fv := st.Field(i)
+			names, tracked := allowed[fieldName(fv)]
+			if !tracked {
+				continue
+			}
+			for _, a := range Writes(w.FieldAccesses(fv)) {
+				owner := rootFn(a.Fn)
+				if lo := w.liftOwner(owner); lo != nil {
+					owner = lo
+				}
+				ok := false
+				for _, n := range names {
+					if fo, isF := owner.Object().(*types.Func); isF && funcObjName(fo) == n {
+						ok = true
+					}
+				}
+				r.Check(ok, fmt.Sprintf("File.%s %s in %s", fieldName(fv), a.Kind, fnName(a.Fn)), a.Instr.Pos(), "reviewed writer",
+					fmt.Sprintf("File.%s is written (%s) in %s: the file summary no longer mirrors the selected PATH record", fieldName(fv), a.Kind, fnName(a.Fn)))
+			}
+		}
+	}
 	r.Rule("C09.R5", "file summary mirrors the selected PATH record: name → File.Path and Summary.Object.Primary, inode → File.Inode, rdev → File.Device, ouid → File.UID, ogid → File.GID; File.Mode is the parsed mode and-ed with 07777, in octal", 6)
 	{
 		fn := x.setFileObject
